@@ -109,7 +109,10 @@ pub fn unescape(s: &str) -> (r: core::result::Result<CowStr, EscapeError>)
 { unimplemented!() }
 #[verifier::external_body]
 pub fn partial_escape(s: &str) -> (r: CowStr) ensures r@ == xml_partial_escape(s@) { unimplemented!() }
+pub uninterp spec fn str_replace(s: Seq<char>, from: Seq<char>, to: Seq<char>) -> Seq<char>;
 impl CowStr {
+    /// str::replace through Deref
+    #[verifier::external_body] pub fn replace(&self, from: &str, to: &str) -> (r: String) ensures r@ == str_replace(self@, from@, to@) { unimplemented!() }
     #[verifier::external_body] pub fn as_bytes(&self) -> (r: &[u8]) ensures r@ == str_bytes(self@) { unimplemented!() }
     #[verifier::external_body] pub fn as_ref(&self) -> (r: &str) ensures r@ == self@ { unimplemented!() }
 }
